@@ -2379,6 +2379,14 @@ impl Connection {
 
         let was_closed = self.state.is_closed();
         let was_drained = self.state.is_drained();
+        // Whether the application has already been told why this connection ended: the peer
+        // closed it, or we closed it because of a transport error we detected. (After a local
+        // `close()` nothing has been reported yet.)
+        let loss_reported = match self.state {
+            State::Draining | State::Drained => true,
+            State::Closed(ref closed) => closed.reason.is_transport_layer(),
+            _ => false,
+        };
 
         let decrypted = match packet {
             None => Err(None),
@@ -2461,10 +2469,10 @@ impl Connection {
 
         // State transitions for error cases
         if let Err(conn_err) = result {
-            if !was_closed {
+            if !loss_reported {
                 // The reason a connection ended is reported to the application once. A stateless
-                // reset (or anything else) arriving while already closed or draining must not
-                // produce a second `ConnectionLost`, nor one after a local `close()`.
+                // reset (or anything else) arriving after that must not produce a second
+                // `ConnectionLost`.
                 self.error = Some(conn_err.clone());
             }
             self.state = match conn_err {
